@@ -3,11 +3,11 @@
 import json, os, shutil, glob, re
 import sys
 ROUND = sys.argv[1] if len(sys.argv) > 1 else ''
-SRC, DST = ('/tmp/seed/out2' if ROUND == 'r2' else '/tmp/seed/out'), '/verif/seeded'
-PFX = 'r2-' if ROUND == 'r2' else ''
+SRC, DST = {'r2': '/tmp/seed/out2', 'r3': '/tmp/seed/out3'}.get(ROUND, '/tmp/seed/out'), '/verif/seeded'
+PFX = ROUND + '-' if ROUND else ''
 os.makedirs(DST, exist_ok=True)
 rows = []
-NOTES = '/verif/tools/seed_notes_r2.json' if ROUND == 'r2' else '/verif/tools/seed_notes.json'
+NOTES = '/verif/tools/seed_notes_%s.json' % ROUND if ROUND else '/verif/tools/seed_notes.json'
 notes = json.load(open(NOTES)) if os.path.exists(NOTES) else {}
 for d in sorted(glob.glob(SRC + '/C[0-9][0-9]')):
     pid = os.path.basename(d)
@@ -40,7 +40,7 @@ for d in sorted(glob.glob(SRC + '/C[0-9][0-9]')):
         'demo_path': meta.get('demo_path'), 'demo_cmd': meta.get('demo_cmd'),
         'confirmed_by_me': {'applies_to_repo_head': True, 'builds': True, 'full_suite_passes_with_change': True,
                             'demo_fails_with_change': True, 'demo_passes_without_change': True,
-                            'how': ('SEED_SRC=/tmp/seed/out2 ' if ROUND == 'r2' else '') + 'tools/eval_seed.sh %s: scratch git worktree of /repo HEAD; go test -mod=mod -vet=off -count=1 ./... with the patch; demo with and without the patch' % pid},
+                            'how': ('SEED_SRC=%s ' % SRC if ROUND else '') + 'tools/eval_seed.sh %s: scratch git worktree of /repo HEAD; go test -mod=mod -vet=off -count=1 ./... with the patch; demo with and without the patch' % pid},
         'check_verdict': verdict,
         'note': notes.get(pid, ''),
     }
@@ -49,7 +49,7 @@ for d in sorted(glob.glob(SRC + '/C[0-9][0-9]')):
     t = verdict.get('thorough', {})
     det = lambda v: ('detected (%d violation lines; %s)' % (v['violations'], ', '.join(v['classes'][:3]))) if v and v.get('exit') == 1 else ('missed' if v else 'not run')
     rows.append((pid, (meta.get('summary') or '')[:220].replace('\n', ' '), det(q), det(t), notes.get(pid, '')))
-with open(DST + ('/RESULTS-r2.md' if ROUND == 'r2' else '/RESULTS.md'), 'w') as f:
+with open(DST + ('/RESULTS-%s.md' % ROUND if ROUND else '/RESULTS.md'), 'w') as f:
     f.write('# Seeded property-breaking changes and the checks\' verdicts\n\n')
     f.write('Each change was written by a fresh sub-agent that saw only the property text and a scratch worktree. All of them compile, keep the repository\'s own test suite green and come with a demonstration that fails with the change and passes without it (confirmed by `tools/eval_seed.sh`). The verdict columns are the exit status of `./check <ID> <tier>` run against a checkout with the change applied (1 = VIOLATION reported).\n\n')
     f.write('| id | change | quick | thorough | note |\n|---|---|---|---|---|\n')
